@@ -5,7 +5,7 @@ from mir import natural_loops, defs, Expr, callee_name, render, walk
 
 APPEND = ('Vec::extend_from_slice', 'Vec::push', 'WriteBytesExt::write_u32', 'WriteBytesExt::write_u8', 'Write::write_all',
           'Vec::extend', 'Vec::append', 'Extend::extend', 'WriteBytesExt::write_u64', 'WriteBytesExt::write_u16', 'Write::write')
-NEUTRAL = ('Vec::len', 'Vec::reserve', 'Vec::capacity', 'Vec::is_empty', 'Deref::deref', 'Vec::as_slice', 'Vec::as_ptr', 'Vec::with_capacity',
+NEUTRAL = ('Vec::try_reserve', 'Vec::try_reserve_exact', 'Vec::reserve_exact', 'Vec::starts_with', 'Vec::ends_with', 'Vec::contains', 'Vec::len', 'Vec::reserve', 'Vec::capacity', 'Vec::is_empty', 'Deref::deref', 'Vec::as_slice', 'Vec::as_ptr', 'Vec::with_capacity',
            'Clone::clone', 'Vec::to_vec', 'slice::to_vec', 'Vec::iter', 'Index::index', 'AsRef::as_ref', 'Borrow::borrow', 'Vec::first', 'Vec::last', 'Vec::get')
 POSITIONAL = ('IndexMut::index_mut', 'Vec::resize')
 FORBIDDEN_HINT = ('clear', 'truncate', 'drain', 'insert', 'remove', 'retain', 'split_off', 'set_len', 'swap', 'as_mut_slice', 'iter_mut', 'fill',
@@ -201,7 +201,11 @@ def r17_1(ctx, run, ba, rule='R17.1'):
             last = callee.split('::')[-1]
             if any(h in last for h in FORBIDDEN_HINT):
                 hint = ' (it can remove, overwrite or reorder bytes that were already in the buffer)'
-            run.violation(rule, fn, d, f'the output buffer is passed to `{callee}` ({detail}), which is not an append-class operation{hint}', loc)
+            if hint:
+                run.violation(rule, fn, d, f'the output buffer is passed to `{callee}` ({detail}), which is not an append-class operation{hint}', loc)
+            else:
+                run.undecided(rule, fn, d, f'the output buffer is passed to `{callee}` ({detail}), which this rule has no classification for (neither append-class, '
+                              f'neutral, nor a known mutator of existing contents)', loc)
         else:
             run.proved(rule, fn, d, {'append': 'append-class', 'neutral': 'does not change the contents', 'positional': 'position checked by R17.2',
                                       'local': 'callee analysed with the same rule', 'wrap': 'wrapper analysed through its methods', 'read': 'read-only use'}[kind], loc)
@@ -316,6 +320,12 @@ def r17_2(ctx, run, ba, rule='R17.2'):
     for (b, callee, pos, p, e, roots) in ba.positional:
         t = e[5]
         loc = f"{t.get('file')}:{t.get('line')}"
+        # a range position `buf[a..b]` / `buf[a..]` is judged by where it starts
+        pr = deref_all(pos)
+        if agg_variant(pr) and pr[1][1].split('::')[-1] in ('Range', 'RangeFrom', 'RangeInclusive') and pr[2]:
+            pos = pr[2][0]
+        elif is_call(pr, 'RangeInclusive::new') and pr[2]:
+            pos = pr[2][0]
         ok, why = position_ok(ctx, ba, b, pos, roots, p, e)
         key = (b.path, callee.split('::')[-1], ok, why)
         if key in seen:
